@@ -137,8 +137,32 @@ fn variants(rng: &mut Rng, base: &[Vec<u8>], n: usize) -> Vec<Vec<u8>> {
     out
 }
 
+/// one datagram into a FRESH lone endpoint (the hello handlers parse their message only once per handshake)
+fn probe_fresh(run: &mut Run, is_client: bool, state: &str, pkt: &[u8]) {
+    let mut s = Session::new(false, is_client, usize::MAX);
+    s.step(1);
+    run_inject(run, &mut s, state, 0, pkt, true);
+    s.step(1);
+    run_inject(run, &mut s, state, 0, &[22, 254, 253, 0, 0], true);   // liveness probe: a short record must still be taken
+}
+
 pub fn special(run: &mut Run, rng: &mut Rng, thorough: bool) {
     let per = if thorough { 3_000 } else { 150 };
+    {
+        use rustrtc::transports::dtls::handshake::HandshakeType as T;
+        for _ in 0..(if thorough { 2_000 } else { 120 }) {
+            // server: ClientHello with hostile extensions reaches `handle_client_hello`'s extension walk
+            let ch = super::dtls::hostile_client_hello(rng);
+            probe_fresh(run, false, "fresh-server", &super::dtls::handshake_record(&[(T::ClientHello, 0, ch)], 0));
+            // client: ServerHello (+ Certificate, ServerKeyExchange, ServerHelloDone in the same flight)
+            let sh = super::dtls::hostile_server_hello(rng);
+            let mut flight = vec![(T::ServerHello, 0u16, sh)];
+            if rng.chance(1, 2) { flight.push((T::Certificate, 1, super::dtls::gen_cert_pub(rng))); }
+            if rng.chance(1, 2) { flight.push((T::ServerKeyExchange, flight.len() as u16, super::dtls::gen_ske_pub(rng))); }
+            if rng.chance(1, 2) { flight.push((T::ServerHelloDone, flight.len() as u16, vec![])); }
+            probe_fresh(run, true, "fresh-client", &super::dtls::handshake_record(&flight, 0));
+        }
+    }
     // a reference handshake: collects genuine flights for mutation and checks the pair really connects
     let reference = Session::new(true, false, usize::MAX);
     let ok = reference.wait_connected(4000);
@@ -182,7 +206,8 @@ pub fn replay_special(run: &mut Run, stream: &str, a: &[&str]) -> bool {
     if stream != "dtlslive" || a.len() != 3 { return false; }
     let state = a[0]; let i: usize = a[1].parse().unwrap_or(0);
     let mut s = match state {
-        "pre-server" => Session::new(false, false, usize::MAX), "pre-client" => Session::new(false, true, usize::MAX),
+        "pre-server" | "fresh-server" => { let s = Session::new(false, false, usize::MAX); s.step(1); s }
+        "pre-client" | "fresh-client" => { let s = Session::new(false, true, usize::MAX); s.step(1); s }
         st if st.starts_with("mid") => { let s = Session::new(true, false, st[3..].parse().unwrap_or(1)); s.step(30); s }
         _ => { let s = Session::new(true, false, usize::MAX); s.wait_connected(4000); if state == "closing" { s.ends[0].t.close(); s.step(2); } s }
     };
